@@ -52,6 +52,9 @@ class Engine:
         self.nofeas = False
         self.class_aliases = {}
         self.ghost_types = {}
+        self.auto_inline = True
+        self.bounded_unroll = 3         # loops over symbolic sequences without an invariant: exact for lengths <= this, flagged bounded
+        self.bounded_used = []
         self.func_kinds = {}            # VFunc.kind -> impl(engine, st, fv, args, kwargs) for sidecar-defined callables
         from . import heapmodel as _h
         _h.install(self)
@@ -726,6 +729,11 @@ class Engine:
             return self.contract_mod.apply_contract(self, c, fv, args, kwargs, st)
         if c is not None or name in self.inline or fv.qualname == "<lambda>" or fv.closure is not None \
                 or fv.module.startswith("models") or fv.module.startswith("specs") or fv.module.startswith("contracts"):
+            return self.inline_call(fv, args, kwargs, st)
+        if self.auto_inline and fv.module.startswith("aioesphomeapi") and not isinstance(fv.node, ast.AsyncFunctionDef):
+            # a synchronous function of the package without a contract: executing its real body in place is exact
+            # (a helper extracted by a refactoring must not make the caller 'unsupported')
+            self.assumptions_used.add(f"inlined (no contract): {name}")
             return self.inline_call(fv, args, kwargs, st)
         raise Unsupported(f"call of {name}: no contract and not on the inline whitelist")
 
